@@ -232,7 +232,7 @@ theorem selected_independent (f : σ → α → Step σ α) (sel : α → Bool) 
 
 /-- two different ways of interleaving two different lists of unselected values give the same results for
 the selected values -/
-theorem selected_independent' (f : σ → α → Step σ α) (sel : α → Bool) (hp : Passes f sel) (p p' : List Bool)
+theorem selected_independent_of_pattern (f : σ → α → Step σ α) (sel : α → Bool) (hp : Passes f sel) (p p' : List Bool)
     (A B B' : List α) (s : σ) (hpat : IsPattern p A B) (hpat' : IsPattern p' A B')
     (hB : ∀ b ∈ B, sel b = false) (hB' : ∀ b ∈ B', sel b = false) :
     pick true p (loop f s (merge p A B)).blocks = pick true p' (loop f s (merge p' A B')).blocks ∧
